@@ -126,6 +126,11 @@ Iter(l) == /\ Len(hist) < D
            /\ evals' = evals \o AllInvocations(lz[l])
            /\ UNCHANGED <<lz, eager, nf, nb, ctor>>
            /\ hist' = Append(hist, Rec("iter", <<l>>, [vals |-> [i \in 1..Len(lz[l]) |-> Force(lz[l][i])], calls |-> AllInvocations(lz[l])]))
+\* partial iteration: the first element only (next(iter(l))) - iteration is lazy element by element
+IterFirst(l) == /\ Len(hist) < D /\ Len(lz[l]) > 0
+                /\ evals' = evals \o Invocations(lz[l][1])
+                /\ UNCHANGED <<lz, eager, nf, nb, ctor>>
+                /\ hist' = Append(hist, Rec("iter_first", <<l>>, [val |-> Force(lz[l][1]), calls |-> Invocations(lz[l][1])]))
 Next == \E l \in Ids :
           \/ Map(l) \/ Copy(l)
           \/ \E k \in {Len(lz[l]), Len(lz[l]) + 1} : MapEach(l, k)
@@ -135,13 +140,13 @@ Next == \E l \in Ids :
           \/ \E k \in PlainPool : ConcatPlain(l, k)
           \/ \E k \in IdxPool : Index(l, k)
           \/ \E idx \in FancyPool : Fancy(l, idx)
-          \/ (WithIter /\ (Iter(l) \/ LenOp(l) \/ MapAmbiguous(l)))
+          \/ (WithIter /\ (Iter(l) \/ IterFirst(l) \/ LenOp(l) \/ MapAmbiguous(l)))
 Spec == Init /\ [][Next]_vars
 \* ---- properties (C19) -------------------------------------------------------------------
 \* faithful: every lazy list has the length and denotes the terms of the ordinary list
 Faithful == \A l \in Ids : Len(lz[l]) = Len(eager[l]) /\ \A i \in 1..Len(lz[l]) : Force(lz[l][i]) = eager[l][i]
 \* lazy: nothing but index / iter evaluates anything
-LazyProp == [][ (hist' # hist /\ hist'[Len(hist')].op \notin {"index", "iter"}) => evals' = evals ]_vars
+LazyProp == [][ (hist' # hist /\ hist'[Len(hist')].op \notin {"index", "iter", "iter_first"}) => evals' = evals ]_vars
 \* a read evaluates exactly what the element depends on, each once, innermost first
 ExactDeps == [][ (hist' # hist /\ hist'[Len(hist')].op = "index" /\ "val" \in DOMAIN hist'[Len(hist')].obs) =>
                    LET t == hist'[Len(hist')].obs.val IN
